@@ -309,7 +309,7 @@ impl Property for C19 {
         v
     }
     fn time_cap_s(&self, tier: Tier) -> u64 {
-        tier.pick(170, 3300)
+        tier.pick(170, 9000)
     }
     fn cpu_budget_s(&self, _tier: Tier) -> Option<u64> {
         Some(20)
